@@ -879,8 +879,17 @@ inline CaseResult Execute(const Cell& cell, int cell_id, u64 idx, int pass, bool
       }
     }
     std::string oracle = "tsan-race@" + site;
-    ctx.Fail(oracle.c_str(), "C04", "%llu ThreadSanitizer report(s) during this case:\n%s", (unsigned long long)tsan,
-             brief.c_str());
+    // A race report is always a C04 violation.  In the cells whose property itself promises happens-before between the
+    // units they run (consecutive Strand jobs: C07; consecutive Mutex critical sections: C14) the jobs / sections write
+    // plain shared payload, so a report there also refutes that promise.
+    std::string props = "C04";
+    if (std::strcmp(g_cfg.family, "exec") == 0 && std::strncmp(cell.name, "strand/", 7) == 0) {
+      props += ",C07";
+    } else if (std::strcmp(g_cfg.family, "cmutex") == 0 && std::strncmp(cell.name, "mutex/", 6) == 0) {
+      props += ",C14";
+    }
+    ctx.Fail(oracle.c_str(), props.c_str(), "%llu ThreadSanitizer report(s) during this case:\n%s",
+             (unsigned long long)tsan, brief.c_str());
   }
 #endif
   res.failed = ctx.failed;
